@@ -82,9 +82,101 @@ func idExactnessRule(c *Ctx) {
 						okPI = true
 					}
 				}
+				// the same by evaluation: with a first byte of integer syntax ('-', '0', '5') every way to MakeID leads through
+				// the ParseInt attempt (a switch on the first byte that sends only digits to ParseInt is the same decision)
+				if !okPI && len(g.callVertices(parseInt)) > 0 && len(f.NonRecvParams()) == 1 {
+					raw := f.NonRecvParams()[0]
+					isFirstByte := func(e ast.Expr) bool {
+						e = ast.Unparen(e)
+						if ix, ok := e.(*ast.IndexExpr); ok {
+							z, isZ := f.ConstInt(ix.Index)
+							return isZ && z == 0 && f.ObjOf(ix.X) == types.Object(raw)
+						}
+						if id, ok := e.(*ast.Ident); ok {
+							if lv, isV := f.ObjOf(id).(*types.Var); isV && !lv.IsField() {
+								ws := f.writesToVar(f.Root().Body, lv, true)
+								if len(ws) == 1 {
+									if as, isAs := ws[0].(*ast.AssignStmt); isAs && len(as.Rhs) == 1 {
+										if ix, ok := ast.Unparen(as.Rhs[0]).(*ast.IndexExpr); ok {
+											z, isZ := f.ConstInt(ix.Index)
+											return isZ && z == 0 && f.ObjOf(ix.X) == types.Object(raw)
+										}
+									}
+								}
+							}
+						}
+						return false
+					}
+					all := true
+					for _, b := range []int64{'-', '0', '5', '9'} {
+						leaf := func(e ast.Expr) tri {
+							x, y, op, ok := binaryCmp(e)
+							if !ok {
+								return triUnknown
+							}
+							val, cst := x, y
+							flip := false
+							if !isFirstByte(val) {
+								val, cst, flip = y, x, true
+							}
+							z, isZ := f.ConstInt(cst)
+							if !isFirstByte(val) || !isZ {
+								return triUnknown
+							}
+							l, r := b, z
+							if flip {
+								l, r = z, b
+							}
+							var res bool
+							switch op {
+							case token.EQL:
+								res = l == r
+							case token.NEQ:
+								res = l != r
+							case token.LSS:
+								res = l < r
+							case token.LEQ:
+								res = l <= r
+							case token.GTR:
+								res = l > r
+							case token.GEQ:
+								res = l >= r
+							default:
+								return triUnknown
+							}
+							if res {
+								return triTrue
+							}
+							return triFalse
+						}
+						isPI := func(u int) bool {
+							for _, pv := range g.callVertices(parseInt) {
+								if pv == u {
+									return true
+								}
+							}
+							return false
+						}
+						if g.ReachUnder(leaf, isPI)[v] {
+							all = false
+						}
+					}
+					// ... and ParseInt's failure is what lets it through
+					if all {
+						for _, pv := range g.callVertices(parseInt) {
+							if ev := errVarOfCall(f, g.Node(pv)); ev != nil && g.ReachableFrom(pv)[v] {
+								okPI = true
+							}
+						}
+					}
+				}
 				// an exported API wrapper that forwards its own parameter is not a wire path
 				if f.Obj != nil && f.Obj.Exported() && f.Pkg == c.P.Pkg("jsonrpc") && len(f.Params()) == 1 && f.ObjOf(call.Args[0]) == types.Object(f.Params()[0]) {
 					c.Ok("MakeID-caller:"+f.Pkg.Name+"."+f.Name()+"(public wrapper)", f, call, "public re-export for callers that already hold a Go value; not on a wire decode path")
+					continue
+				}
+				if f.Obj == decodeID && !okPI && len(f.CallsIn(f.Body, parseInt, false)) == 0 && returnsInt64ID(f) {
+					c.Undecided("MakeID-caller:"+f.Name(), f, call, "integer ids are parsed by hand-written code instead of strconv.ParseInt: whether that parser is exact for every int64 is not something this rule can decide")
 					continue
 				}
 				c.Check(f.Obj == decodeID && okPI, "MakeID-caller:"+f.Name(), f, call, "the float coercion MakeID is used on wire input only as the fallback after an exact strconv.ParseInt of the same raw text failed (1.0, 1e3)")
@@ -132,13 +224,35 @@ func idExactnessRule(c *Ctx) {
 			switch x := ast.Unparen(r.Results[0]).(type) {
 			case *ast.CompositeLit:
 				okForm = len(x.Elts) == 0
+				if len(x.Elts) == 1 {
+					// ID{value: s} with s filled by Unmarshal(raw, &s): what StringID(s) is
+					val := x.Elts[0]
+					if kv, isKV := val.(*ast.KeyValueExpr); isKV {
+						val = kv.Value
+					}
+					for _, uc := range d.AllCalls(d.Body, false) {
+						if fn := d.Callee(uc); fn != nil && fn.Name() == "Unmarshal" && len(uc.Args) == 2 {
+							if u, isU := ast.Unparen(uc.Args[1]).(*ast.UnaryExpr); isU && u.Op == token.AND && d.ObjOf(u.X) != nil && d.ObjOf(u.X) == d.ObjOf(val) {
+								okForm = true
+							}
+						}
+					}
+				}
 			case *ast.CallExpr:
 				okForm = d.Callee(x) != nil && d.Callee(x).Name() == "Int64ID"
 			}
 		}
+		if !okForm && comparesWithBackslash(d) {
+			c.Undecided("DecodeID:decoded-by-the-decoder#"+itoa(i), d, r, "an id is built from the raw text by hand-written code that looks at escapes (a comparison with '\\\\'): whether it agrees with the JSON decoder for every string is not something this rule can decide (got %s)", exprStr(r.Results[0]))
+			continue
+		}
 		c.Check(okForm, "DecodeID:decoded-by-the-decoder#"+itoa(i), d, r, "DecodeID returns Int64ID(parsed), MakeID(unmarshalled value) or the zero ID (got %s)", exprStr(r.Results[0]))
 	}
-	c.Check(okExact, "DecodeID:exact-integer-path", d, nil, "an id in integer syntax is parsed with strconv.ParseInt(raw, 10, 64) and wrapped by Int64ID without passing through float64")
+	if !okExact && len(d.CallsIn(d.Body, parseInt, false)) == 0 && returnsInt64ID(d) {
+		c.Undecided("DecodeID:exact-integer-path", d, nil, "integer ids are parsed by hand-written code instead of strconv.ParseInt(raw, 10, 64): exactness over the whole int64 range is not decided here")
+	} else {
+		c.Check(okExact, "DecodeID:exact-integer-path", d, nil, "an id in integer syntax is parsed with strconv.ParseInt(raw, 10, 64) and wrapped by Int64ID without passing through float64")
+	}
 	// DecodeMessage uses DecodeID on the raw member
 	dm := c.Fn(pJ, "", "DecodeMessage")
 	okDM := false
@@ -1269,4 +1383,32 @@ func canonExpr(f *Func, e ast.Expr) string {
 		}
 	}
 	return f.FieldPath(e)
+}
+
+// returnsInt64ID: some return of f hands out Int64ID(…).
+func returnsInt64ID(f *Func) bool {
+	for _, r := range f.Returns() {
+		for _, e := range r.Results {
+			if ce, ok := ast.Unparen(e).(*ast.CallExpr); ok && f.Callee(ce) != nil && f.Callee(ce).Name() == "Int64ID" {
+				return true
+			}
+		}
+	}
+	return false
+}
+
+// comparesWithBackslash: f compares something with the byte or rune '\\'.
+func comparesWithBackslash(f *Func) bool {
+	found := false
+	ast.Inspect(f.Body, func(n ast.Node) bool {
+		if _, y, _, ok := binaryCmp2(n); ok {
+			if v, isC := f.ConstInt(y); isC && v == '\\' {
+				if b, isB := f.TypeOf(y).Underlying().(*types.Basic); isB && (b.Kind() == types.Uint8 || b.Kind() == types.Int32 || b.Kind() == types.UntypedRune) {
+					found = true
+				}
+			}
+		}
+		return !found
+	})
+	return found
 }
